@@ -406,10 +406,65 @@ def many_segments_case(draw):
     return {'fn': 'make', 'content': enc_content(parts), 'kw': kw}
 
 
+CONFUSABLE = {
+    'numeric': ['\n', ' ', '_', '+', '-', '\t', '\r', '\x0c', '\x0b', '\x1c', '\x85', '\xa0', '\u0663', '\uff11', '.', 'e', '\u00b2'],
+    'alphanumeric': ['a', 'z', ',', '\n', ' \n', '_', '\u00c4', '\uff21', '\t', ';', '#'],
+    'kanji': ['\uff71', 'a', '1', ' ', '\n', '\u00e9', '\u4e66'],
+    'byte': ['\n', '\x00'],
+}
+
+
+@st.composite
+def lookalike_case(draw):
+    """Mode-pure content with one character that only *looks* as if it belonged to the class
+    (whitespace accepted by int(), underscore, sign, other scripts' digits, lower case ...)."""
+    mode = draw(st.sampled_from(['numeric', 'numeric', 'alphanumeric', 'kanji']))
+    n = draw(st.integers(1, 9))
+    text = draw(_text(alphabet_for(mode), n))
+    extra = draw(st.sampled_from(CONFUSABLE[mode]))
+    pos = draw(st.sampled_from([0, len(text), len(text), draw(st.integers(0, len(text)))]))
+    text = text[:pos] + extra + text[pos:]
+    content = text
+    if draw(st.integers(0, 3)) == 0:
+        try:
+            content = text.encode('iso-8859-1')
+        except UnicodeError:
+            pass
+    kw = {}
+    if draw(st.integers(0, 3)) == 0:
+        kw['mode'] = mode
+    if draw(st.booleans()):
+        kw['micro'] = draw(st.sampled_from([None, False]))
+    if draw(st.booleans()):
+        kw['mask'] = draw(st.integers(0, 3))
+    return {'fn': 'make', 'content': enc_content(content), 'kw': kw}
+
+
+@st.composite
+def crossing_segments_case(draw):
+    """Very many one-character parts of alternating modes with a requested version just above a change of
+    the character count indicator widths (10, 27): the content fits the version below but may overflow
+    the requested one."""
+    v = draw(st.sampled_from([10, 10, 27]))
+    lvl = draw(st.sampled_from(['L', 'M', 'Q', 'H']))
+    pair = draw(st.sampled_from([('byte', 'numeric'), ('alphanumeric', 'numeric'), ('byte', 'alphanumeric')]))
+    per_pair = sum(segment_bits(v, m, 1) for m in pair)
+    pairs = R.data_capacity_bits(v, lvl) // per_pair + draw(st.integers(-2, 1))
+    chars = {'byte': 'a', 'numeric': '1', 'alphanumeric': 'A'}
+    parts = [chars[pair[i % 2]] for i in range(max(2, 2 * pairs))]
+    kw = {'version': v, 'error': lvl, 'boost_error': False, 'mask': draw(st.integers(0, 7))}
+    if draw(st.booleans()):
+        kw['micro'] = False
+    return {'fn': draw(st.sampled_from(['make', 'make_qr'])) if 'micro' not in kw else 'make', 'content': enc_content(parts), 'kw': kw}
+
+
 def make_cases(big=0.06, multi=True):
     opts = [constructive_single(big=big)] * 6 + [free_single()] * 3 + [eci_case()]
+    opts += [lookalike_case()]
     if multi:
         opts += [eci_multi_case(), many_segments_case()]
+        if big >= 0.05:
+            opts += [crossing_segments_case()]
     if multi:
         opts += [multi_part()] * 2
     return st.one_of(*opts)
